@@ -270,7 +270,12 @@ func (p *propC04) checkProduced(sc *Scenario, st *Stats) []Violation {
 		hs = "14"
 	}
 	for _, c := range []string{"CheckIntegrity", "CheckIntegrityHeader", "DecodeHeader", "Decode", "HeaderCheckIntegrity"} {
-		r := runTask(&Task{ID: 1, Call: c, In: "m0", Read: planFull()}, map[string][]byte{"m0": enc.Out}, nil, nil)
+		plan := planFull()
+		if sc.Index%3 == 1 {
+			// every read schedule: short reads, (0,nil) results, EOF together with the last bytes
+			plan = genPlan(NewRng(p.seed, "C04/prodplan", sc.Index), true, true)
+		}
+		r := runTask(&Task{ID: 1, Call: c, In: "m0", Read: plan}, map[string][]byte{"m0": enc.Out}, nil, nil)
 		st.Observe(r)
 		st.Key(c, "produced", sc.Params["mode"], hs)
 		if r.Panic != "" {
